@@ -283,7 +283,41 @@ def _loopback_server(root):
     import http.server, threading, socket
 
     class H(http.server.BaseHTTPRequestHandler):
+        routes = {}      # path (with query) -> (status, [(name, value)], body) | ("redirect", location)
+        seen = []        # requests to routed paths: {"method", "path", "ctype", "body"}
+
+        def _routed(self, method):
+            r = H.routes.get(self.path)
+            if r is None and not any(self.path.startswith(k[:-1]) for k in H.routes if k.endswith("*")):
+                return False
+            body = b""
+            if method == "POST":
+                body = self.rfile.read(int(self.headers.get("Content-Length", "0")))
+            H.seen.append({"method": method, "path": self.path, "ctype": self.headers.get("Content-Type", ""), "body": body})
+            if r is None:
+                r = [v for k, v in H.routes.items() if k.endswith("*") and self.path.startswith(k[:-1])][0]
+            if r[0] == "redirect":
+                self.send_response_only(301)
+                self.send_header("Location", r[1])
+                self.send_header("Content-Length", "0")
+                self.end_headers()
+                return True
+            status, hdrs, data = r
+            self.send_response_only(status)
+            for n, v in hdrs:
+                self.send_header(n, v)
+            self.send_header("Content-Length", str(len(data)))
+            self.end_headers()
+            self.wfile.write(data)
+            return True
+
+        def do_POST(self):
+            if not self._routed("POST"):
+                self.send_response(404); self.end_headers()
+
         def do_GET(self):
+            if self._routed("GET"):
+                return
             try:
                 data = open(os.path.join(H.root, self.path.lstrip("/").split("?")[0]), "rb").read()
             except OSError:
@@ -347,6 +381,187 @@ def _sxgdefaults_pipeline(pl, sd, fix, info, cid):
              "params": p1, "skipped": skipped, "stderr": (se + se2 + so2[-200:]).decode("latin1")[-400:]}]
 
 
+UL_BODY = {"a": b"<p>alpha</p>", "b": bytes(range(0, 256, 3)), "c": b"", "d": b"not found here"}
+
+
+def _urllist_pipeline(pl, sd, fix, info, cid):
+    """gen-bundle -URLList against the loopback server: the bundle holds, per listed URL, what the server answered."""
+    p0 = pl[0]["p"]
+    H, port = _loopback_server(sd)
+    if H is None:
+        return [{"case": cid, "kind": "urllist", "skipped": True}]
+    base = "http://127.0.0.1:%d" % port
+    c = p0["ul"]
+    ct = ("Content-Type", "text/html")
+    routes = {"/ul/a.html": (200, [ct], UL_BODY["a"]), "/ul/b.bin": (200, [("Content-Type", "application/octet-stream")], UL_BODY["b"]), "/ul/gone": (404, [("Content-Type", "text/plain")], UL_BODY["d"])}
+    lines = [base + "/ul/a.html", base + "/ul/b.bin", base + "/ul/gone"]
+    text = None
+    if c == "comments":
+        text = "# a list\n\n  %s  \n\t%s\r\n#%s\n%s\n\n%s\n   \n" % (lines[0], lines[1], lines[2], lines[0], lines[2])
+    elif c == "query":
+        routes["/ul/q?x=1&y=%20z"] = (200, [ct], b"query one")
+        routes["/ul/q?x=2"] = (203, [ct], b"query two")
+        routes["/ul/p%41th/%7Euser"] = (200, [ct], b"escaped path")
+        lines = [base + "/ul/q?x=1&y=%20z", base + "/ul/q?x=2", base + "/ul/p%41th/%7Euser", base + "/ul/a.html"]
+    elif c == "redirect":
+        routes["/ul/moved"] = ("redirect", "/ul/a.html")
+        routes["/ul/moved2"] = ("redirect", base + "/ul/moved")
+        lines = [base + "/ul/moved", base + "/ul/a.html", base + "/ul/moved2"]
+    elif c == "headers":
+        routes["/ul/h"] = (200, [ct, ("X-Multi", "a"), ("x-multi", "b"), ("X-MiXed-Case", "Value With  Spaces"), ("Cache-Control", "max-age=60"), ("Link", "<https://example.com/s.css>;rel=preload")], b"headers")
+        lines = [base + "/ul/h", base + "/ul/b.bin"]
+    elif c == "emptybody":
+        routes["/ul/empty"] = (200, [ct], b"")
+        routes["/ul/nocontent"] = (204, [], b"")
+        lines = [base + "/ul/empty", base + "/ul/nocontent", base + "/ul/a.html"]
+    if text is None:
+        text = "\n".join(lines) + "\n"
+    H.routes, H.seen = routes, []
+    lp = os.path.join(sd, "urls.txt")
+    open(lp, "w").write(text)
+    out = os.path.join(sd, "ul.wbn")
+    args = ["-URLList", lp, "-version", p0["ver"], "-o", out]
+    if p0["ver"] == "b1":
+        args += ["-primaryURL", lines[0]]
+    rc, so, se = run("gen-bundle", args, sd)
+    rc2, so2, se2 = run("dump-bundle", ["-i", out], sd)
+    H.routes = {}
+
+    def final(path, depth=0):
+        r = routes[path]
+        if r[0] == "redirect" and depth < 5:
+            return final(r[1][len(base):] if r[1].startswith(base) else r[1], depth + 1)
+        return r
+    served = []
+    for path in routes:
+        st, hdrs, body = final(path)
+        by = {}
+        for n, v in hdrs + [("Content-Length", str(len(body)))]:
+            by.setdefault(n.lower(), []).append(v)
+        served.append({"url": b(base + path), "status": st, "resph": [{"n": b(n), "vs": [b(v) for v in vs]} for n, vs in by.items()], "body": list(body)})
+    return [{"case": cid, "kind": "urllist", "skipped": False, "ver": p0["ver"], "ul": c, "listfile": b(text), "served": served, "file": list(read(out)), "gen_exit": rc, "dump_exit": rc2,
+             "stderr": (se + se2).decode("latin1")[-300:]}]
+
+
+def _ocspfetch_pipeline(pl, sd, fix, info, cid):
+    """gen-certurl without -ocsp: the responder named in the leaf certificate is asked (POST, or GET with -preferGET)."""
+    p0 = pl[0]["p"]
+    H, port = _loopback_server(sd)
+    name = "p256-ocsplong" if p0["fetch"] == "gettoolong" else "p256-ocspleaf"
+    if H is None or name + "-leaf" not in info:
+        return [{"case": cid, "kind": "ocspfetch", "skipped": True}]
+    base = "http://127.0.0.1:%d" % port
+    answer = b"ocsp-answer-" + p0["fetch"].encode() + bytes(range(40))
+    pem = os.path.join(fix, name + "-cert2.pem")
+    # the POST form of the same invocation shows the DER request this certificate pair leads to
+    H.routes, H.seen = {"/ocsp*": (200, [("Content-Type", "application/ocsp-response")], answer)}, []
+    run("gen-certurl", ["-pem", pem], sd)
+    reqder = H.seen[0]["body"] if H.seen and H.seen[0]["method"] == "POST" else b""
+    H.seen = []
+    args = ["-pem", pem] + (["-preferGET"] if p0["fetch"] != "post" else [])
+    rc, so, se = run("gen-certurl", args, sd)
+    reqs = [{"method": b(r["method"]), "path": b(r["path"]), "ctype": b(r["ctype"]), "body": list(r["body"])} for r in H.seen]
+    H.routes = {}
+    cp = os.path.join(sd, "cert.cbor")
+    open(cp, "wb").write(so)
+    rc2, so2, se2 = run("dump-certurl", ["-i", cp], sd)
+    return [{"case": cid, "kind": "ocspfetch", "skipped": False, "fetch": p0["fetch"], "preferget": p0["fetch"] != "post", "certs": [info[name + "-leaf"], info[name + "-ca"]], "answer": list(answer),
+             "responder": info[name + "-responder"], "responderbase": b(base), "reqder": list(reqder), "reqs": reqs, "out": list(so), "gen_exit": rc, "dump_exit": rc2,
+             "stderr": (se + se2).decode("latin1")[-300:]}]
+
+
+def _sxg_basic(sd, fix, ver, certurl="https://example.com/cert.cbor", ncerts=1, content=b"<p>view</p>" * 5):
+    rcg, sog, seg = run("gen-certurl", ["-pem", os.path.join(fix, "p256-cert%d.pem" % ncerts), "-ocsp", os.path.join(fix, "ocsp.der")], sd)
+    cp = os.path.join(sd, "cert.cbor")
+    open(cp, "wb").write(sog)
+    open(os.path.join(sd, "payload"), "wb").write(content)
+    out = os.path.join(sd, "out.sxg")
+    t0 = int(time.time())
+    rc, so, se = run("gen-signedexchange", ["-version", ver, "-uri", "https://example.com/view.html?x=1", "-status", "200", "-content", os.path.join(sd, "payload"),
+                                            "-certificate", os.path.join(fix, "p256-cert%d.pem" % ncerts), "-privateKey", os.path.join(fix, "p256-sec1.key"), "-certUrl", certurl,
+                                            "-validityUrl", "https://example.com/validity", "-miRecordSize", "16", "-expire", "1h", "-responseHeader", "X-View: 1", "-o", out], sd)
+    return rc if rcg == 0 else 90, cp, out, t0, content, se
+
+
+def _sxgview_pipeline(pl, sd, fix, info, cid):
+    """dump-signedexchange's views of one exchange as functions of the file."""
+    p1 = pl[1]["p"]
+    rc, cp, out, t0, content, se = _sxg_basic(sd, fix, p1["ver"])
+    view = p1["view"]
+    args = {"headerIntegrity": ["-headerIntegrity"], "signature": ["-signature"], "json": ["-json", "-cert", cp], "payloadonly": ["-verify", "-cert", cp, "-headers=false"]}[view]
+    rc2, so2, se2 = run("dump-signedexchange", ["-i", out] + args, sd)
+    js = {"ok": False, "valid": False, "integrity": [], "uri": [], "status": 0, "sigvalue": [], "haspayload": False}
+    if view == "json":
+        try:
+            d = json.loads(so2.decode("utf-8"))
+            js = {"ok": True, "valid": bool(d["Valid"]), "integrity": b(d["HeaderIntegrity"]), "uri": b(d["RequestURI"]), "status": int(d["ResponseStatus"]),
+                  "sigvalue": b(d.get("SignatureHeaderValue") or ""), "haspayload": bool(d.get("Payload"))}
+        except Exception:
+            pass
+    return [{"case": cid, "kind": "sxgview", "ver": p1["ver"], "view": view, "gen_exit": rc, "file": list(read(out)), "leaf": info["p256-leaf"], "t": {"s": list((t0 + 1).to_bytes(8, "big")), "ns": 0},
+             "dump_exit": rc2, "stdout": list(so2), "json": js, "stderr": (se + se2).decode("latin1")[-300:]}]
+
+
+_TLS = None
+
+
+def _tls_server(fix):
+    """A loopback HTTPS server (thread) with the fixture certificate; serves H.files (path -> bytes) and counts requests."""
+    global _TLS
+    if _TLS is not None:
+        return _TLS
+    import http.server, threading, ssl, socket
+
+    class T(http.server.BaseHTTPRequestHandler):
+        files = {}
+        hits = 0
+
+        def do_GET(self):
+            T.hits += 1
+            data = T.files.get(self.path)
+            if data is None:
+                self.send_response(404); self.send_header("Content-Length", "0"); self.end_headers(); return
+            self.send_response(200)
+            self.send_header("Content-Type", "application/cert-chain+cbor")
+            self.send_header("Content-Length", str(len(data)))
+            self.end_headers()
+            self.wfile.write(data)
+
+        def log_message(self, *a):
+            pass
+    try:
+        ctx = ssl.SSLContext(ssl.PROTOCOL_TLS_SERVER)
+        ctx.load_cert_chain(os.path.join(fix, "tls-cert.pem"), os.path.join(fix, "tls-key.pem"))
+        srv = http.server.ThreadingHTTPServer(("127.0.0.1", 0), T)
+        srv.socket = ctx.wrap_socket(srv.socket, server_side=True)
+        threading.Thread(target=srv.serve_forever, daemon=True).start()
+        _TLS = (T, srv.server_address[1])
+    except (OSError, ssl.SSLError, FileNotFoundError):
+        _TLS = (None, None)
+    return _TLS
+
+
+def _sxgfetch_pipeline(pl, sd, fix, info, cid):
+    """dump-signedexchange -verify without -cert: the chain comes from the exchange's own cert-url (https, loopback)."""
+    p0, p1 = pl[0]["p"], pl[1]["p"]
+    T, port = _tls_server(fix)
+    if T is None:
+        return [{"case": cid, "kind": "sxgfetch", "skipped": True}]
+    url = "https://127.0.0.1:%d/chains/%s.cbor" % (port, cid)
+    rc, cp, out, t0, content, se = _sxg_basic(sd, fix, p1["ver"], certurl=url, ncerts=p0["ncerts"])
+    T.files, T.hits = {}, 0
+    if p1["certfetch"] == "served":
+        T.files = {"/chains/%s.cbor" % cid: read(cp)}
+    elif p1["certfetch"] == "other":
+        rco, soo, seo = run("gen-certurl", ["-pem", os.path.join(fix, "p384-cert1.pem"), "-ocsp", os.path.join(fix, "ocsp.der")], sd)
+        T.files = {"/chains/%s.cbor" % cid: soo}
+    env = dict(os.environ, SSL_CERT_FILE=os.path.join(fix, "tls-cert.pem"), SSL_CERT_DIR="/nonexistent")
+    rc2, so2, se2 = run("dump-signedexchange", ["-i", out, "-verify"], sd, env=env)
+    return [{"case": cid, "kind": "sxgfetch", "skipped": False, "ver": p1["ver"], "certfetch": p1["certfetch"], "gen_exit": rc, "file": list(read(out)), "leaf": info["p256-leaf"],
+             "t": {"s": list((t0 + 1).to_bytes(8, "big")), "ns": 0}, "dump_exit": rc2, "valid": b"The exchange has a valid signature." in so2, "fetched": T.hits,
+             "stderr": (se + se2 + so2[-200:]).decode("latin1")[-400:]}]
+
+
 def _har_pipeline(pl, sd, fix, info, cid):
     import base64
     p1 = pl[0]["p"]
@@ -387,7 +602,8 @@ def ib_cli(rep, pid):
     wd = workdir(pid)
     fix = os.path.join(wd, "fixtures")
     shutil.rmtree(fix, ignore_errors=True)
-    info = vh(["cli-fixtures", fix])[0]
+    Hsrv, hport = _loopback_server(wd)
+    info = vh(["cli-fixtures", fix] + (["http://127.0.0.1:%d" % hport] if Hsrv is not None else []))[0]
     scratch = vlib.fresh(os.path.join(wd, "scratch"))
     events = []
     STALE_ALWAYS = True
@@ -452,7 +668,8 @@ def sig_cli(rep, pid):
     wd = workdir(pid)
     fix = os.path.join(wd, "fixtures")
     shutil.rmtree(fix, ignore_errors=True)
-    info = vh(["cli-fixtures", fix])[0]
+    Hsrv, hport = _loopback_server(wd)
+    info = vh(["cli-fixtures", fix] + (["http://127.0.0.1:%d" % hport] if Hsrv is not None else []))[0]
     scratch = vlib.fresh(os.path.join(wd, "scratch-sig"))
     events = []
     i = 0
@@ -493,7 +710,8 @@ def cert_cli(rep, pid):
     wd = workdir(pid)
     fix = os.path.join(wd, "fixtures")
     shutil.rmtree(fix, ignore_errors=True)
-    info = vh(["cli-fixtures", fix])[0]
+    Hsrv, hport = _loopback_server(wd)
+    info = vh(["cli-fixtures", fix] + (["http://127.0.0.1:%d" % hport] if Hsrv is not None else []))[0]
     scratch = vlib.fresh(os.path.join(wd, "scratch-cert"))
     events = []
     i = 0
@@ -553,7 +771,8 @@ def sxg_cli(rep, pid):
     wd = workdir(pid)
     fix = os.path.join(wd, "fixtures")
     shutil.rmtree(fix, ignore_errors=True)
-    info = vh(["cli-fixtures", fix])[0]
+    Hsrv, hport = _loopback_server(wd)
+    info = vh(["cli-fixtures", fix] + (["http://127.0.0.1:%d" % hport] if Hsrv is not None else []))[0]
     scratch = vlib.fresh(os.path.join(wd, "scratch-sxg"))
     events = []
     i = 0
@@ -595,7 +814,8 @@ def cli_total(rep, pid, tier):
     wd = workdir(pid)
     fix = os.path.join(wd, "fixtures")
     shutil.rmtree(fix, ignore_errors=True)
-    info = vh(["cli-fixtures", fix])[0]
+    Hsrv, hport = _loopback_server(wd)
+    info = vh(["cli-fixtures", fix] + (["http://127.0.0.1:%d" % hport] if Hsrv is not None else []))[0]
     sd = vlib.fresh(os.path.join(wd, "scratch-total"))
     rnd = random.Random(vlib.seed())
     arte = []       # (tool, args before the file, file bytes, note)
@@ -705,7 +925,8 @@ def check_c20(tier):
     wd = workdir("C20")
     fix = os.path.join(wd, "fixtures")
     shutil.rmtree(fix, ignore_errors=True)
-    info = vh(["cli-fixtures", fix])[0]
+    Hsrv, hport = _loopback_server(wd)
+    info = vh(["cli-fixtures", fix] + (["http://127.0.0.1:%d" % hport] if Hsrv is not None else []))[0]
     scratch = vlib.fresh(os.path.join(wd, "scratch"))
     events = []
     sx = 0
@@ -713,7 +934,8 @@ def check_c20(tier):
         tool = pl[0]["tool"]
         flags = len(pl) > 1 and pl[1]["tool"] == "gen-signedexchange" and "hdr" in pl[1]["p"]
         defaults = len(pl) > 1 and pl[1]["tool"] == "gen-signedexchange" and "via" in pl[1]["p"]
-        if len(pl) > 1 and pl[1]["tool"] == "gen-signedexchange" and not flags and not defaults:
+        views = len(pl) > 1 and pl[1]["tool"] == "gen-signedexchange" and ("view" in pl[1]["p"] or "certfetch" in pl[1]["p"])
+        if len(pl) > 1 and pl[1]["tool"] == "gen-signedexchange" and not flags and not defaults and not views:
             sx += 1
             if tier == "quick" and (sx + vlib.seed()) % 12 != 0:
                 continue
@@ -721,6 +943,14 @@ def check_c20(tier):
         cid = "p%d" % i
         if tool == "gen-bundle -dir":
             events += _dir_pipeline(pl, sd, fix, info, cid)
+        elif tool == "gen-bundle -URLList":
+            events += _urllist_pipeline(pl, sd, fix, info, cid)
+        elif tool == "gen-certurl" and "fetch" in pl[0]["p"]:
+            events += _ocspfetch_pipeline(pl, sd, fix, info, cid)
+        elif len(pl) > 2 and pl[2]["tool"] == "dump-signedexchange view":
+            events += _sxgview_pipeline(pl, sd, fix, info, cid)
+        elif len(pl) > 1 and "certfetch" in pl[1]["p"]:
+            events += _sxgfetch_pipeline(pl, sd, fix, info, cid)
         elif tool == "gen-bundle -har":
             events += _har_pipeline(pl, sd, fix, info, cid)
         elif flags:
